@@ -191,7 +191,7 @@ def _conds_hold(conds, env, fns=None):
     return True
 
 
-def find_point(decls, conds, rng, tries=300, fns=None):
+def find_point(decls, conds, rng, tries=300, fns=None, wide=True):
     for k in range(tries):
         env = sample_env(decls, rng, spread=1.0 if k < tries // 2 else 2.0)
         try:
@@ -203,8 +203,9 @@ def find_point(decls, conds, rng, tries=300, fns=None):
     if env is not None:
         return env
     # regions only reached far from the unit box (a clamp, an epsilon, a tolerance: cumulative sums below log(eps), rates of 1e-8, ...):
-    # the same rejection sampling at wider and wider scales
-    for spread in (4.0, 10.0, 20.0):
+    # the same rejection sampling at wider and wider scales - for the search of a REFUTING point only (wide=True); the concretisation
+    # cross-check stays in the moderate range, where float64 evaluates the real code to the accuracy the comparison assumes
+    for spread in ((4.0, 10.0, 20.0) if wide else ()):
         for k in range(tries // 2):
             env = sample_env(decls, rng, spread=spread)
             try:
@@ -442,7 +443,7 @@ def prove_scenario(scn, *, seed=0, crosscheck=2, max_paths=4000, timeout_ms=1000
     for _ in range(crosscheck):
         # pick a path and a point on it
         claims, mk, assumptions = sym_paths[rng.randrange(len(sym_paths))]
-        env = find_point(mk.decls, assumptions, rng, fns=fns)
+        env = find_point(mk.decls, assumptions, rng, fns=fns, wide=False)
         if env is None:
             continue
         try:
@@ -508,7 +509,7 @@ def _boundary_probe(scn, sym_paths, rng, fns, rtol, replay):
         closed = [d for d in mk.decls if d.lo_incl and d.lo is not None and d.name not in seen]
         if not closed:
             continue
-        base = find_point(mk.decls, assumptions, rng, fns=fns)
+        base = find_point(mk.decls, assumptions, rng, fns=fns, wide=False)
         if base is None:
             continue
         probes = []
